@@ -35,17 +35,17 @@ theorem sendMsgTP_start_bam (a : Node) (m : Msg) (d : Dev) (hq : Quiet a.s 0) (h
 
 /-- the sender's transport state after BAM data packet `seq` (0-based) went out at time `t` -/
 def bamTp (a : Node) (m : Msg) (seq t : Nat) : Nat → TpDev :=
-  if seq + 1 < tpPacketCount m.len then txTp a m (seq + 1) t 50 else doneTp a m (seq + 1)
+  if seq + 1 < tpPacketCount m.len then txTp a m (seq + 1) t a.bamGap else doneTp a m (seq + 1)
 
 /-- **the sender polls when the 50 ms pacing timer is due**: exactly one data packet; after the last one the transfer is over -/
-theorem poll_bam (a : Node) (d : Dev) (m : Msg) (seq t0 : Nat) (sl : List Slot) (out : List Delivery)
+theorem poll_bam (a : Node) (d : Dev) (m : Msg) (seq t0 tmo : Nat) (sl : List Slot) (out : List Delivery)
     (hd : Lead a d) (hq : Quiet a.s 0) (hi : InfoIdle a 0) (hm : m.dst = 255) (hp0 : m.pgn ≠ 0) (hlen : m.len ≤ 223)
-    (hdue : t0 + 51 ≤ a.s.now ∧ a.s.now < t0 + 50 + INT32_MAX) (h64 : a.s.now + 100 < M64)
+    (hdue : t0 + tmo + 1 ≤ a.s.now ∧ a.s.now < t0 + tmo + INT32_MAX) (h64 : a.s.now + 100 < M64)
     (hseq : seq < tpPacketCount m.len) :
-    poll (a.upd (txTp a m seq t0 50) sl out [] []) =
+    poll (a.upd (txTp a m seq t0 tmo) sl out [] []) =
       a.upd (bamTp a m seq a.s.now) sl out [dtFrame d.source m seq] [] := by
   have hpc := tpPacketCount_le m.len hlen
-  generalize hN : a.upd (txTp a m seq t0 50) sl out [] [] = N
+  generalize hN : a.upd (txTp a m seq t0 tmo) sl out [] [] = N
   have hNq : Quiet N.s 0 := by subst hN; exact upd_quiet _ _ _ _ _ _ hq
   have hNd : Lead N d := by subst hN; exact hd.upd _ _ _ _ _ (fun k hk => by simp [txTp, Nat.ne_of_gt hk, hd.others k hk])
   have hNd0 : N.s.devs[0]? = some d := hNd.dev0
@@ -63,9 +63,9 @@ theorem poll_bam (a : Node) (d : Dev) (m : Msg) (seq t0 : Nat) (sl : List Slot) 
   have hpt : pendingTP N 0 =
       (if tpPacketCount m.len ≤ seq + 1
        then endSendTP (setTimer ((N.setTp 0 { N.tp 0 with nextSeq := ((N.tp 0).nextSeq + 1) % 256 }).pushes
-              [dtFrame d.source (N.tp 0).pend (N.tp 0).nextSeq]) 0 50) 0
+              [dtFrame d.source (N.tp 0).pend (N.tp 0).nextSeq]) 0 N.bamGap) 0
        else setTimer ((N.setTp 0 { N.tp 0 with nextSeq := ((N.tp 0).nextSeq + 1) % 256 }).pushes
-              [dtFrame d.source (N.tp 0).pend (N.tp 0).nextSeq]) 0 50) := by
+              [dtFrame d.source (N.tp 0).pend (N.tp 0).nextSeq]) 0 N.bamGap) := by
     unfold pendingTP
     have hc : (N.tp 0).pend.pgn ≠ 0 ∧ (N.tp 0).timer.isTime N.s.flavor N.s.now = true := ⟨by rw [hpend]; exact hp0, hNt⟩
     have hb : (N.tp 0).pend.dst = 0xff := by rw [hpend]; exact hm
@@ -74,7 +74,7 @@ theorem poll_bam (a : Node) (d : Dev) (m : Msg) (seq t0 : Nat) (sl : List Slot) 
     rw [sendTPDT_quiet N 0 d hNq hNd0 (by rw [hb]; omega)]
     simp only []
     have hX : hasAllSent (setTimer ((N.setTp 0 { N.tp 0 with nextSeq := ((N.tp 0).nextSeq + 1) % 256 }).pushes
-          [dtFrame d.source (N.tp 0).pend (N.tp 0).nextSeq]) 0 50) 0 = true ↔ tpPacketCount m.len ≤ seq + 1 := by
+          [dtFrame d.source (N.tp 0).pend (N.tp 0).nextSeq]) 0 N.bamGap) 0 = true ↔ tpPacketCount m.len ≤ seq + 1 := by
       rw [hasAllSent_iff]; simp [setTimer, Node.setTp, hpend, hns, Nat.mod_eq_of_lt (show seq + 1 < 256 by omega)]
     by_cases hall : tpPacketCount m.len ≤ seq + 1
     · rw [if_pos hall, if_pos (hX.2 hall)]
@@ -329,15 +329,15 @@ theorem roundB_first (h : BamHyp a b da db m j S' a0) (tA tB dB dA : Nat) (hdA :
   rw [hp]
   unfold rcvB
   simp only [wire_upd, List.append_nil, advance_upd]
-  have hc := poll_bam (atTime a (tA + dA)) da m 0 tA a.slots a.out (h.devA.atTime _) (atTime_quiet _ h.qa) h.aInfo h.mdst h.pgn0 h.len223
-    ⟨by show tA + 51 ≤ tA + dA; omega, by show tA + dA < tA + 50 + INT32_MAX; omega⟩ (by show tA + dA + 100 < M64; exact h64) (by omega)
+  have hc := poll_bam (atTime a (tA + dA)) da m 0 tA 50 a.slots a.out (h.devA.atTime _) (atTime_quiet _ h.qa) h.aInfo h.mdst h.pgn0 h.len223
+    ⟨by show tA + 50 + 1 ≤ tA + dA; omega, by show tA + dA < tA + 50 + INT32_MAX; omega⟩ (by show tA + dA + 100 < M64; exact h64) (by omega)
   rw [txTp_atTime, bamTp_atTime] at hc
   rw [hc]
   rfl
 
 /-- a middle round: data packet `k` is heard; at least 51 ms after its last poll the sender sends packet `k+1` -/
 theorem roundB_mid (h : BamHyp a b da db m j S' a0) (k tA tB mt dB dA : Nat) (hk : k + 1 < tpPacketCount m.len)
-    (hdA : 51 ≤ dA ∧ dA < INT32_MAX) (h64 : tA + dA + 100 < M64) :
+    (hdA : a.bamGap + 1 ≤ dA ∧ dA < INT32_MAX) (h64 : tA + dA + 100 < M64) :
     round dB dA (sndB a da m tA k, rcvB (atTime b tB) m da.source j S' a0 mt [] k [] []) =
       (sndB a da m (tA + dA) (k + 1), rcvB (atTime b (tB + dB)) m da.source j S' a0 (millis32 (tB + dB)) [] (k + 1) [] []) := by
   have hsa := h.srcA
@@ -351,10 +351,10 @@ theorem roundB_mid (h : BamHyp a b da db m j S' a0) (k tA tB mt dB dA : Nat) (hk
   rw [show (atTime b tB).tp = b.tp from rfl]
   rw [hp]
   simp only [wire_upd, List.append_nil, advance_upd]
-  have hbt : bamTp a m k tA = txTp a m (k + 1) tA 50 := by unfold bamTp; rw [if_pos hk]
+  have hbt : bamTp a m k tA = txTp a m (k + 1) tA a.bamGap := by unfold bamTp; rw [if_pos hk]
   rw [hbt]
-  have hc := poll_bam (atTime a (tA + dA)) da m (k + 1) tA a.slots a.out (h.devA.atTime _) (atTime_quiet _ h.qa) h.aInfo h.mdst h.pgn0 h.len223
-    ⟨by show tA + 51 ≤ tA + dA; omega, by show tA + dA < tA + 50 + INT32_MAX; omega⟩ (by show tA + dA + 100 < M64; exact h64) hk
+  have hc := poll_bam (atTime a (tA + dA)) da m (k + 1) tA a.bamGap a.slots a.out (h.devA.atTime _) (atTime_quiet _ h.qa) h.aInfo h.mdst h.pgn0 h.len223
+    ⟨by show tA + a.bamGap + 1 ≤ tA + dA; omega, by show tA + dA < tA + a.bamGap + INT32_MAX; omega⟩ (by show tA + dA + 100 < M64; exact h64) hk
   rw [txTp_atTime, bamTp_atTime] at hc
   rw [hc]
   rfl
@@ -385,7 +385,7 @@ theorem roundB_last (h : BamHyp a b da db m j S' a0) (k tA tB mt dB dA : Nat) (h
 
 /-- from any packet on, the BAM transfer completes in the remaining number of rounds, whatever the delays from 51 ms on -/
 theorem roundsB_complete (h : BamHyp a b da db m j S' a0) : ∀ (fuel k tA tB mt : Nat) (ds : List (Nat × Nat)),
-    k < tpPacketCount m.len → tpPacketCount m.len - k ≤ fuel → fuel ≤ ds.length → (∀ p ∈ ds, 51 ≤ p.2 ∧ p.2 < INT32_MAX) →
+    k < tpPacketCount m.len → tpPacketCount m.len - k ≤ fuel → fuel ≤ ds.length → (∀ p ∈ ds, a.bamGap + 1 ≤ p.2 ∧ p.2 < INT32_MAX) →
     tA + totalA ds + 100 < M64 →
     ∃ r S'' tA' tB', r ≤ fuel ∧ rounds (ds.take r) (sndB a da m tA k, rcvB (atTime b tB) m da.source j S' a0 mt [] k [] []) =
       ((atTime a tA').upd (doneTp a m (tpPacketCount m.len)) a.slots a.out [] [],
